@@ -506,6 +506,7 @@ package core
 //@   trusted
 //@   pure
 //@   opt deterministic on
+//@   ensures isnil(result.1) ==> result.0 != nil
 
 // UnmatchedParts is the order-preserving filter of upstream by U (same shape as matchForks).
 //@ func core.ForkId.UnmatchedParts property C01
@@ -843,3 +844,19 @@ package core
 
 //@ func core.Runtime.reattachToPipestance property C15
 //@   requires self != nil && self.Config != nil
+
+// ForkId.Match: the fork id selected for an upstream node has one part for EVERY source of
+// that node (also when the consuming fork's own id is empty: the indices carried by the
+// reference are then what selects the fork).
+//@ func core.convertForkPart property C01
+//@   trusted
+//@   pure
+//@   ensures !isnil(result)
+
+//@ func core.ForkId.Match property C01
+//@   ensures @complete isnil(result.1) && len(upstream) > 0 ==> len(result.0) == len(upstream) && forall k :: 0 <= k && k < len(upstream) ==> result.0[k] != nil
+//@   loop 1 invariant 0 <= iter && iter <= len(upstream) && len(result) == len(upstream)
+//@   loop 1 invariant forall k :: 0 <= k && k < iter ==> result[k] != nil
+//@   loop 2 invariant len(result) == len(upstream) && 0 <= i && i < len(result)
+//@   loop 2 invariant forall k :: 0 <= k && k < i ==> result[k] != nil
+//@   loop 2 invariant found ==> result[i] != nil
